@@ -111,7 +111,9 @@ def gen_plan(seed: int, run: int, tier: str) -> dict:
         "read_block": rng.choice([16, 64, 512, 8192]),
         "chunked_write": rng.random() < 0.4,
         "grace_period": rng.choice([3, 10, 30]),
-        "busy_timeout": rng.choice([5.0, 60.0, 300.0]),
+        # 0 = the busy handler gives up at once: "database is locked" surfaces as
+        # StorageInternalError and the failed call must then have had no effect at all
+        "busy_timeout": rng.choice([0.0, 5.0, 60.0, 300.0]),
         "pool": rng.choice([1, 2, 3, 10]),
         "snapshot_interval": rng.choice([2, 3, 100]),
         # pre-emption also inside copy.deepcopy (a reader that copies outside the lock sees a
@@ -319,6 +321,12 @@ def _run(plan: dict, sim: sched.Sim, ch: sched.Chooser, dep: deploy.Deployment, 
                     continue
                 if res[0] == "ok" and op["op"] in ("create_new_study", "create_new_trial"):
                     env.real[op["as"]] = res[1][1]
+                if res[0] == "err" and (res[1] == "StorageInternalError" or (res[1] == "SimRpcError" and "StorageInternalError" in res[2])) and cfg.get("busy_timeout") == 0.0 and ("rdb" in kind or "cached" in kind):
+                    # SQLITE_BUSY with an exhausted busy timeout: a failed call, to be
+                    # linearised as a no-op (the final state must not show any part of it)
+                    sim.count("op_failed_database_locked")
+                    sim.note("busy-failed", name, op["op"])
+                    continue
                 if res[0] == "err" and res[1] == "SimRpcError" and "connection reset" in res[2]:
                     if "before delivery" in res[2]:
                         sim.note("rpc-reset-pre", name, op["op"])
